@@ -4,6 +4,7 @@ import Proofs.ExtractSql
 import Proofs.ExtractReload
 import Proofs.ExtractScope
 import Proofs.ExtractFrame
+import Proofs.ExtractRows
 
 /-!
   C14 — Component extraction mirrors the BridgePoint class model.
@@ -652,7 +653,7 @@ example : (match buildOutcome { dSub with rels := [⟨41, 7, .subsup 9 [(2, [⟨
     | .attributeError => true | _ => false) = true := by decide
 
 /-- the rows of d0 in reverse order -/
-example : RowWF d0 ∧ RowPerm d0 ⟨d0.containers.reverse, d0.dts.reverse, d0.classes.reverse, d0.rels.reverse, []⟩ :=
+example : RowWF d0 ∧ RowPerm d0 ⟨d0.containers.reverse, d0.dts.reverse, d0.classes.reverse, d0.rels.reverse, [], []⟩ :=
   ⟨⟨by decide, by decide, by decide⟩,
    ⟨(List.reverse_perm _).symm, (List.reverse_perm _).symm, (List.reverse_perm _).symm, (List.reverse_perm _).symm⟩⟩
 
@@ -745,5 +746,162 @@ example : ((extract d0 (some 6) false).toMM).classes.map (fun c => (c.kind, c.at
 /-- moving Owner and R1 out of the component removes exactly them -/
 example : (extract (applyEdits [.moveRel 41 .none, .moveClass 1 (.pkg 7)] d0) (some 6) false).classes.map (·.kl) =
     ["DOG", "LSH"] := by decide
+
+/-! ### mk_association as a total function: every R_REL row, whatever hangs on it
+
+  `RelRows` (Diagram.lean) holds the rows of one R_REL as the code reads them, `mkAssociation` (Rows.lean) is
+  `mk_association` with every ending, `buildAll` is `mk_component` over the relationships of the diagram and the ones given
+  row by row.  What the code does (bridgepoint/ooaofooa.py, probed against the implementation by the harness family `rows`):
+
+    R206 subtype row(s)        first of R_ASSOC, R_COMP, R_SIMP, R_SUBSUP that exists decides; none: TypeError
+    R_COMP                     nothing
+    R_SUBSUP                   one association per R_SUB (none without R_SUB rows — R_SUPER is then not looked at);
+                               R_SUB rows without R_SUPER: AttributeError
+    R_ASSOC                    two associations when R_AONE, R_AOTH and R_ASSR all exist, whether or not the link class
+                               holds referential attributes (key lists then empty); a row missing: AttributeError
+    R_SIMP, R_FORM + R_PART    one association (first R_PART when there are several)
+    R_SIMP, no R_FORM          UNFORMALISED: two R_PART rows -> one association WITHOUT keys from the second R_PART row to
+                               the first (so its direction follows the row order); fewer: AttributeError
+    R_SIMP, R_FORM, no R_PART  AttributeError
+    a class / attribute row named by an end or an O_REF is missing: AttributeError
+
+  So the statement "one association per FORMALISED simple, linked and subtype relationship" holds (`formalised_produces`),
+  but NOT "and none for the others": unformalised simple and linked relationships and subtypes without referential
+  attributes get associations with empty key lists (`unformalised_simple_defines`, `unformalised_linked_defines`). -/
+
+/-- the four shapes of `RelKind`, given row by row, end exactly as `groupOf` / `resolvedRel` say -/
+theorem mk_association_wellformed (d : ClassDiagram) (r : Rel) (h : resolvedRel d r = true) :
+    rowGroup d { id := r.id, numb := r.numb, rows := rowsOf r.kind, parent := r.parent } = groupOf d r :=
+  rowGroup_rowsOf d r h
+
+/-- at least one association is defined exactly when the dispatched subtype has all its end rows (simple: R_FORM and a
+    participant, or two participants; linked: all three; subtype: R_SUPER and a subtype) and every class and attribute row
+    they name exists -/
+theorem mk_association_produces_iff (d : ClassDiagram) (w : RelRows) :
+    (∃ items, mkAssociation d w = .defined items ∧ items ≠ []) ↔ reachesDefine d w :=
+  association_produced_iff d w
+
+/-- nothing is defined, silently, exactly for R_COMP and for a subtype relationship without subtypes -/
+theorem mk_association_silent_iff (d : ClassDiagram) (w : RelRows) :
+    mkAssociation d w = .defined [] ↔ w.dispatch = .comp ∨ (w.dispatch = .subsup ∧ w.subs = []) :=
+  nothing_defined_iff d w
+
+/-- TypeError exactly for an R_REL without any R206 subtype row -/
+theorem mk_association_typeError_iff (d : ClassDiagram) (w : RelRows) :
+    mkAssociation d w = .typeError ↔ w.dispatch = .none :=
+  mkAssociation_typeError_iff d w
+
+/-- AttributeError in every remaining case -/
+theorem mk_association_attributeError_iff (d : ClassDiagram) (w : RelRows) :
+    mkAssociation d w = .attributeError ↔
+      (w.dispatch = .linked ∨ w.dispatch = .simple ∨ (w.dispatch = .subsup ∧ w.subs ≠ [])) ∧ ¬ reachesDefine d w :=
+  mkAssociation_attributeError_iff d w
+
+/-- one association per FORMALISED relationship whose rows exist (1 / 2 / one per subtype), each with non-empty key lists
+    of equal length -/
+theorem formalised_relationship_produces (d : ClassDiagram) (w : RelRows) (hf : w.formalised = true)
+    (hr : reachesDefine d w) :
+    ∃ items, mkAssociation d w = .defined items ∧ items ≠ [] ∧
+      ∀ a ∈ items, a.src.keys ≠ [] ∧ a.src.keys.length = a.tgt.keys.length :=
+  formalised_produces d w hf hr
+
+/-- key lists mirror the O_REF rows: one key pair per O_REF, so an association has empty key lists exactly when the
+    relationship has no O_REF for it -/
+theorem association_keys_per_ref {d : ClassDiagram} {k : RelKind} (h : resolvedRel d k.asRel = true) {g : SGroup}
+    (hg : groupOf d k.asRel = some g) :
+    g.items.map (fun a => a.src.keys.length) = k.refLists.map List.length ∧
+    g.items.map (fun a => a.tgt.keys.length) = k.refLists.map List.length :=
+  resolved_key_lengths h hg
+
+/-- OPEN FINDING (C14, `unformalised-association-defined`): an unformalised simple relationship is not formalised, yet one
+    association is defined for it — no keys, from the second participant row to the first -/
+theorem unformalised_simple_still_defined (d : ClassDiagram) (w : RelRows) (p q : End) (pc qc : Class)
+    (hd : w.dispatch = .simple) (hf : w.form = none) (hp : w.parts = [p, q]) (hr : w.refs = [])
+    (hpc : findClass d p.cls = some pc) (hqc : findClass d q.cls = some qc) :
+    w.formalised = false ∧
+    mkAssociation d w = .defined [
+      { src := { kind := qc.kl, keys := [], many := q.mult, cond := q.cond, phrase := phraseIf (q.cls == p.cls) p.phrase },
+        tgt := { kind := pc.kl, keys := [], many := p.mult, cond := p.cond, phrase := phraseIf (q.cls == p.cls) q.phrase } } ] :=
+  unformalised_simple_defines d w p q pc qc hd hf hp hr hpc hqc
+
+/-- ... and the ORDER OF THE TWO R_PART ROWS decides its direction: the other order gives the mirror image -/
+theorem unformalised_direction_follows_row_order (d : ClassDiagram) (w : RelRows) (p q : End)
+    (hd : w.dispatch = .simple) (hf : w.form = none) (hp : w.parts = [p, q]) (hr : w.refs = []) :
+    mkAssociation d { w with parts := [q, p] } = (mkAssociation d w).mirror :=
+  unformalised_mirror d w p q hd hf hp hr
+
+/-- the same for a linked relationship whose link class holds no referential attributes: two associations without keys -/
+theorem unformalised_linked_still_defined (d : ClassDiagram) (w : RelRows) (o t : End) (l : Nat) (oc tc lc : Class)
+    (hd : w.dispatch = .linked) (ho : w.aone = some o) (ht : w.aoth = some t) (hl : w.assr = some l)
+    (h1 : w.refsOne = []) (h2 : w.refsOth = [])
+    (hoc : findClass d o.cls = some oc) (htc : findClass d t.cls = some tc) (hlc : findClass d l = some lc) :
+    w.formalised = false ∧
+    ∃ a b, mkAssociation d w = .defined [a, b] ∧ a.src.keys = [] ∧ a.tgt.keys = [] ∧ b.src.keys = [] ∧ b.tgt.keys = [] ∧
+      a.src.kind = lc.kl ∧ a.tgt.kind = oc.kl ∧ b.src.kind = lc.kl ∧ b.tgt.kind = tc.kl :=
+  unformalised_linked_defines d w o t l oc tc lc hd ho ht hl h1 h2 hoc htc hlc
+
+/-- `mk_component` over everything: without row-given relationships it is `buildOutcome`; a successful build holds the
+    groups of the diagram's relationships followed by one group per row-given relationship in scope, none of which raised;
+    TypeError needs an R_REL without subtype row in scope -/
+theorem build_all_cases (d : ClassDiagram) (comp : Option Nat) (drv : Bool) :
+    (d.rowRels = [] → buildAll d comp drv = (buildOutcome d comp drv).toFull) ∧
+    (∀ s, buildAll d comp drv = .ok s →
+      ∃ s0, buildOutcome d comp drv = .ok s0 ∧ s.classes = s0.classes ∧ s.groups = s0.groups ++ rowGroups d comp ∧
+        (∀ r ∈ rowRelsInScope d comp, ∃ items, mkAssociation d r.rows = .defined items) ∧ s.definable = true) ∧
+    (buildAll d comp drv = .typeError → ∃ r ∈ rowRelsInScope d comp, r.rows.dispatch = .none) :=
+  ⟨buildAll_no_rowRels d comp drv, fun _ h => buildAll_ok h, buildAll_typeError⟩
+
+/-- d0's R1 unformalised: R_SIMP with the participants Owner (first row) and Dog, no R_FORM, no O_REF -/
+def wUnformal : RelRows :=
+  { simp := true, parts := [⟨1, false, false, "owns"⟩, ⟨2, true, true, "is owned by"⟩] }
+
+example : wUnformal.formalised = false ∧
+    mkAssociation d0 wUnformal =
+      .defined [⟨⟨"DOG", [], true, true, ""⟩, ⟨"OWN", [], false, false, ""⟩⟩] ∧
+    mkAssociation d0 { wUnformal with parts := wUnformal.parts.reverse } =
+      .defined [⟨⟨"OWN", [], false, false, ""⟩, ⟨"DOG", [], true, true, ""⟩⟩] := by decide
+
+/-- the theorems applied to it -/
+example : mkAssociation d0 wUnformal =
+    .defined [⟨⟨"DOG", [], true, true, phraseIf ((2 : Nat) == 1) "owns"⟩,
+               ⟨"OWN", [], false, false, phraseIf ((2 : Nat) == 1) "is owned by"⟩⟩] :=
+  (unformalised_simple_still_defined d0 wUnformal _ _ _ _ rfl rfl rfl rfl rfl rfl).2
+
+example : reachesDefine d0 wUnformal :=
+  Or.inr (Or.inl ⟨rfl, _, _, rfl, by decide⟩)
+
+/-- the formalised R1 of d0 as rows: formalised, reaches define_association, one association with its key pair -/
+example : (rowsOf (.simple ⟨2, true, true, "is owned by"⟩ ⟨1, false, false, "owns"⟩ [⟨23, 11⟩])).formalised = true ∧
+    mkAssociation d0 (rowsOf (.simple ⟨2, true, true, "is owned by"⟩ ⟨1, false, false, "owns"⟩ [⟨23, 11⟩])) =
+      .defined [⟨⟨"DOG", ["owner_id"], true, true, ""⟩, ⟨"OWN", ["id"], false, false, ""⟩⟩] := by decide
+
+example : ∃ items, mkAssociation d0 (rowsOf (.simple ⟨2, true, true, "is owned by"⟩ ⟨1, false, false, "owns"⟩ [⟨23, 11⟩])) =
+    .defined items ∧ items ≠ [] ∧ ∀ a ∈ items, a.src.keys ≠ [] ∧ a.src.keys.length = a.tgt.keys.length :=
+  formalised_relationship_produces d0 _ (by decide) (Or.inr (Or.inl ⟨rfl, _, _, rfl, by decide⟩))
+
+/-- every other ending on d0: no subtype row, R_COMP, no subtypes, a missing R_AOTH, one participant only, subtypes
+    without R_SUPER, an unformalised linked relationship, two subtype rows (R_COMP wins over R_SIMP) -/
+example :
+    mkAssociation d0 {} = .typeError ∧
+    mkAssociation d0 { comp := true } = .defined [] ∧
+    mkAssociation d0 { subsup := true, super := some 99 } = .defined [] ∧
+    mkAssociation d0 { assoc := true, aone := some ⟨2, false, true, "leads"⟩, assr := some 3 } = .attributeError ∧
+    mkAssociation d0 { simp := true, parts := [⟨1, false, false, "owns"⟩] } = .attributeError ∧
+    mkAssociation d0 { simp := true, form := some ⟨2, true, true, "x"⟩ } = .attributeError ∧
+    mkAssociation d0 { subsup := true, subs := [(2, [])] } = .attributeError ∧
+    mkAssociation d0 { assoc := true, aone := some ⟨2, false, true, "leads"⟩, aoth := some ⟨1, true, false, "follows"⟩,
+                       assr := some 3 } =
+      .defined [⟨⟨"LSH", [], true, false, ""⟩, ⟨"DOG", [], false, false, ""⟩⟩,
+                ⟨⟨"LSH", [], false, true, ""⟩, ⟨"OWN", [], false, false, ""⟩⟩] ∧
+    mkAssociation d0 { wUnformal with comp := true } = .defined [] := by decide
+
+/-- the whole build with row-given relationships: d0 plus the unformalised R3 in the component -> one more group; plus an
+    R_REL without subtype row -> TypeError; outside the component it does no harm -/
+example :
+    (match buildAll { d0 with rowRels := [⟨43, 3, wUnformal, .pkg 5⟩] } (some 6) false with
+      | .ok s => s.groups.map (·.rel) | _ => []) = [1, 2, 3] ∧
+    buildAll { d0 with rowRels := [⟨43, 3, wUnformal, .pkg 5⟩, ⟨44, 4, {}, .pkg 5⟩] } (some 6) false = .typeError ∧
+    (match buildAll { d0 with rowRels := [⟨44, 4, {}, .pkg 7⟩] } (some 6) false with
+      | .ok s => s.groups.map (·.rel) | _ => []) = [1, 2] := by decide
 
 end PyxProps.C14
